@@ -150,10 +150,12 @@ Proof.
   - auto.
 Qed.
 
+Lemma c4_le_refl' a : c4_le a a. Proof. unfold c4_le; lia. Qed.
+
 (* ---------- coupling between the component state and the monitor's ledger ---------- *)
 Section Conformance.
-Variables fs fo fl : bool.
-Local Notation vv := (V fs fo fl).
+Variables fs fo fl fp : bool.
+Local Notation vv := (V fs fo fl fp).
 
 Definition coupled (s : sst) (m : mst) : Prop :=
   match cache s with
@@ -185,7 +187,7 @@ Ltac fin := cbn [cache db inb m_open m_ack m_pend m_pers m_sent last hw pending 
 
 Lemma step_conforms g s m ev :
   coupled s m -> lstep_wraps vv g s ev = false ->
-  exists m', mon_step fs m ev (snd (lstep vv g s ev)) = Some m' /\ coupled (fst (lstep vv g s ev)) m'.
+  exists m', mon_step fs fp m ev (snd (lstep vv g s ev)) = Some m' /\ coupled (fst (lstep vv g s ev)) m'.
 Proof.
   intros C Hw. unfold coupled in C.
   destruct s as [ib ca d]. cbn [cache db inb] in C.
@@ -231,8 +233,14 @@ Proof.
         unfold coupled; cbn. repeat split; auto. intros E. rewrite Hd3. auto.
       * subst mp. eexists; split; [reflexivity|]. unfold coupled; cbn. auto.
     + (* Prune *)
-      destruct (pending e) eqn:P; destruct past; cbn [andb negb fst snd mon_step m_open m_pend];
-        (eexists; split; [reflexivity|]); unfold coupled; cbn [cache db inb]; rewrite ?P; try (destruct d; fin); fin.
+      destruct (pending e) eqn:P; destruct past; cbn [andb negb fst snd mon_step m_open m_pend fix_prune V];
+        try ((eexists; split; [reflexivity|]); unfold coupled; cbn [cache db inb]; rewrite ?P; try (destruct d; fin); fin).
+      (* the orphan is dropped: with fix_prune a Stop at the floor closes it *)
+      assert (EP : fp = true \/ fp = false) by (clear; destruct fp; auto).
+      pose proof (ge_floor_intro (Mst true mp true (last e) ms) _ e eq_refl Hs (c4_le_refl' _)) as GF.
+      destruct EP as [EP|EP]; rewrite EP in *; cbn [fst snd].
+      * rewrite GF. eexists; split; [reflexivity|]. unfold coupled; cbn; auto.
+      * eexists; split; [reflexivity|]. unfold coupled; cbn; auto.
   - destruct C as (Hd & Hi & Hm). subst d ib m.
     destruct ev as [i h|i h|sn|sn ok| | |past]; cbn [lstep lstep_wraps cache inb db fst snd mon_step m_open mst0 fix_stop V andb];
       eexists; (split; [reflexivity|]); unfold coupled; cbn; repeat split; auto; discriminate.
@@ -240,7 +248,7 @@ Qed.
 
 Lemma run_conforms g evs : forall s m,
   coupled s m -> lrun_wraps vv g s evs = false ->
-  exists m', mon_run fs m (snd (lrun vv g s evs)) = Some m'.
+  exists m', mon_run fs fp m (snd (lrun vv g s evs)) = Some m'.
 Proof.
   induction evs as [|ev r IH]; intros s m C Hw; cbn [lrun lrun_wraps] in *.
   - eexists; reflexivity.
@@ -253,7 +261,7 @@ Proof.
 Qed.
 
 Lemma conforms g evs :
-  lrun_wraps vv g sst0 evs = false -> accepted fs (snd (lrun vv g sst0 evs)) = true.
+  lrun_wraps vv g sst0 evs = false -> accepted fs fp (snd (lrun vv g sst0 evs)) = true.
 Proof.
   intros Hw. unfold accepted.
   destruct (run_conforms g evs sst0 mst0 coupled_init Hw) as (m' & M). rewrite M. reflexivity.
@@ -274,6 +282,12 @@ Ltac break_if H :=
   | context [match ?x with _ => _ end] => let E := fresh "E" in destruct x eqn:E; try discriminate
   end.
 
+Ltac norm_hyps := repeat match goal with
+  | H : _ && _ = true |- _ => apply andb_true_iff in H; destruct H
+  | H : Bool.eqb _ _ = true |- _ => apply Bool.eqb_prop in H; subst
+  | H : negb _ = true |- _ => apply negb_true_iff in H; subst
+  end.
+
 Lemma ge_floor_ack fs m c : ge_floor fs m c = true -> c4_leb (m_ack m) c = true.
 Proof. unfold ge_floor. rewrite andb_true_iff. tauto. Qed.
 Lemma ge_floor_sent m c : ge_floor true m c = true -> c4_leb (m_sent m) c = true.
@@ -281,7 +295,7 @@ Proof. unfold ge_floor. rewrite andb_true_iff. cbn. tauto. Qed.
 
 Ltac mon_start t IH M NP Hi St :=
   induction t as [|[ev o] r IH]; intros m m' x M NP Hi; [reflexivity|];
-  cbn [mon_run] in M; destruct (mon_step _ m ev o) as [m1|] eqn:St; [|discriminate];
+  cbn [mon_run] in M; destruct (mon_step _ _ m ev o) as [m1|] eqn:St; [|discriminate];
   cbn [map fst no_prune never_restored forallb] in NP;
   unfold outputs in *; cbn [flat_map snd];
   destruct m as [mo mp mq ma ms];
@@ -293,8 +307,8 @@ Ltac no_prune_case :=
   try (match goal with H : _ && false = true |- _ => rewrite andb_false_r in H; discriminate H end).
 
 (* a Start is only ever sent when the ledger is closed; inside => open and persisted *)
-Lemma mon_bracketed fs t : forall m m' inside,
-  mon_run fs m t = Some m' -> no_prune (map fst t) = true ->
+Lemma mon_bracketed fs fp t : forall m m' inside,
+  mon_run fs fp m t = Some m' -> no_prune (map fst t) = true ->
   (inside = true -> m_open m = true /\ m_pers m = true) ->
   bracketed inside (outputs t) = true.
 Proof.
@@ -307,26 +321,20 @@ Proof.
 Qed.
 
 (* Stops: not armed => the ledger is closed *)
-Lemma mon_stops fs t : forall m m' armed,
-  mon_run fs m t = Some m' -> True -> (armed = false -> m_open m = false) -> stops_ok armed t = true.
+Lemma mon_stops fs fp t : forall m m' armed,
+  mon_run fs fp m t = Some m' -> True -> (armed = false -> m_open m = false) -> stops_ok armed t = true.
 Proof.
   induction t as [|[ev o] r IH]; intros m m' x HM _ Hi; [reflexivity|].
-  cbn [mon_run] in HM. destruct (mon_step _ m ev o) as [m1|] eqn:St; [|discriminate].
+  cbn [mon_run] in HM. destruct (mon_step _ _ m ev o) as [m1|] eqn:St; [|discriminate].
   cbn [stops_ok]. destruct m as [mo mp mq ma ms].
   destruct ev as [i h|i h|sn|sn ok| | |past]; cbn [mon_step m_open m_pers m_pend m_ack m_sent] in St;
-  break_if St; inversion St; subst; clear St; cbn [filter length Nat.eqb Nat.leb andb];
+  break_if St; inversion St; subst; clear St; norm_hyps; subst; cbn [filter length Nat.eqb Nat.leb andb];
   try (destruct x; [|specialize (Hi eq_refl); discriminate]); cbn [Nat.leb Nat.eqb andb];
   try (destruct x; cbn [Nat.leb Nat.eqb andb]);
   (eapply IH; [exact HM|exact I|]); cbn [m_open]; intros Hx; try discriminate; try reflexivity;
   try (specialize (Hi Hx); cbn [m_open] in Hi); subst; try discriminate; auto;
   try (match goal with H : true && _ = _ |- _ => cbn in H end); try discriminate.
 Qed.
-
-Ltac norm_hyps := repeat match goal with
-  | H : _ && _ = true |- _ => apply andb_true_iff in H; destruct H
-  | H : Bool.eqb _ _ = true |- _ => apply Bool.eqb_prop in H; subst
-  | H : negb _ = true |- _ => apply negb_true_iff in H; subst
-  end.
 
 (* acknowledged floor: open => prev <= the acknowledged value (zero while nothing is persisted); closed => prev = 0 *)
 Definition mono_inv (m : mst) (prev : c4) : Prop :=
@@ -338,10 +346,8 @@ Lemma c4_leb_le_trans x a c : c4_le x a -> c4_leb a c = true -> c4_leb x c = tru
 Proof. intros H1 H2. apply c4_leb_spec in H2. apply c4_leb_spec. eapply c4_le_trans; eassumption. Qed.
 Lemma c4_max_ge_l a b : c4_le a (c4_max a b).
 Proof. unfold c4_le, c4_max, c4_map2; cbn [rxb txb rxp txp]; lia. Qed.
-Lemma c4_le_refl' a : c4_le a a. Proof. unfold c4_le; lia. Qed.
-
-Lemma mon_monotone fs t : forall m m' prev,
-  mon_run fs m t = Some m' -> no_prune (map fst t) = true -> mono_inv m prev ->
+Lemma mon_monotone fs fp t : forall m m' prev,
+  mon_run fs fp m t = Some m' -> no_prune (map fst t) = true -> mono_inv m prev ->
   nondecreasing prev (outputs t) = true.
 Proof.
   mon_start t IH HM NP Hi St; apply andb_true_iff in NP as [NP1 NP2]; try discriminate; no_prune_case; norm_hyps;
@@ -364,8 +370,8 @@ Qed.
 Definition sent_inv (m : mst) (prev : c4) : Prop :=
   if m_open m then prev = m_sent m /\ (m_pers m = false -> m_sent m = c4z) else prev = c4z.
 
-Lemma mon_monotone_sent t : forall m m' prev,
-  mon_run true m t = Some m' -> no_prune (map fst t) = true -> sent_inv m prev ->
+Lemma mon_monotone_sent fp t : forall m m' prev,
+  mon_run true fp m t = Some m' -> no_prune (map fst t) = true -> sent_inv m prev ->
   nondecreasing_sent prev (outputs t) = true.
 Proof.
   mon_start t IH HM NP Hi St; apply andb_true_iff in NP as [NP1 NP2]; try discriminate; no_prune_case; norm_hyps;
@@ -380,13 +386,13 @@ Proof.
 Qed.
 
 (* a never-restored session: the stream is strictly bracketed; opened <-> the ledger is open (and then persisted) *)
-Lemma mon_strict fs t : forall m m' opened,
-  mon_run fs m t = Some m' -> no_prune (map fst t) && never_restored (map fst t) = true ->
+Lemma mon_strict fs fp t : forall m m' opened,
+  mon_run fs fp m t = Some m' -> no_prune (map fst t) && never_restored (map fst t) = true ->
   (opened = m_open m /\ (m_open m = true -> m_pers m = true)) ->
   strict opened (outputs t) = true.
 Proof.
   induction t as [|[ev o] r IH]; intros m m' x HM NP Hi; [reflexivity|].
-  cbn [mon_run] in HM. destruct (mon_step _ m ev o) as [m1|] eqn:St; [|discriminate].
+  cbn [mon_run] in HM. destruct (mon_step _ _ m ev o) as [m1|] eqn:St; [|discriminate].
   apply andb_true_iff in NP as [NPa NPb].
   cbn [map fst no_prune never_restored forallb] in NPa, NPb.
   apply andb_true_iff in NPa as [NP1 NPa]. apply andb_true_iff in NPb as [NR1 NPb].
@@ -403,19 +409,89 @@ Proof.
   (split; [reflexivity| intros; try discriminate; rewrite ?orb_true_l, ?orb_true_r; auto]).
 Qed.
 
+(* ---------- the same with fix_prune: a pruned orphan is closed with a Stop, no hypothesis about pruning ---------- *)
+Ltac mon_start0 t IH M Hi St :=
+  induction t as [|[ev o] r IH]; intros m m' x M Hi; [reflexivity|];
+  cbn [mon_run] in M; destruct (mon_step _ _ m ev o) as [m1|] eqn:St; [|discriminate];
+  unfold outputs in *; cbn [flat_map snd];
+  destruct m as [mo mp mq ma ms];
+  destruct ev as [i h|i h|sn|sn ok| | |past]; cbn [mon_step m_open m_pers m_pend m_ack m_sent] in St;
+  break_if St; inversion St; subst; clear St.
+
+Lemma mon_bracketed_p fs t : forall m m' inside,
+  mon_run fs true m t = Some m' ->
+  (inside = true -> m_open m = true /\ m_pers m = true) ->
+  bracketed inside (outputs t) = true.
+Proof.
+  mon_start0 t IH HM Hi St; try discriminate;
+  cbn [app bracketed];
+  try (destruct x; [destruct (Hi eq_refl); discriminate|]);
+  (eapply IH; [exact HM|]); cbn [m_open m_pers]; intros Hx; try discriminate;
+  try (destruct (Hi Hx) as [I1 I2]; cbn [m_open m_pers] in I1, I2); subst;
+  try discriminate; rewrite ?orb_true_l, ?orb_true_r; auto.
+Qed.
+
+Lemma mon_monotone_sent_p t : forall m m' prev,
+  mon_run true true m t = Some m' -> sent_inv m prev ->
+  nondecreasing_sent prev (outputs t) = true.
+Proof.
+  mon_start0 t IH HM Hi St; try discriminate; norm_hyps; subst;
+  unfold sent_inv in Hi; cbn [m_open m_sent m_pers] in Hi;
+  cbn [app nondecreasing_sent];
+  try (match goal with H : ge_floor _ _ _ = true |- _ => pose proof (ge_floor_sent _ _ H) as GA; cbn [m_sent] in GA end);
+  try (destruct Hi as [Hi1 Hi2]; subst x); rewrite ?GA; cbn [andb];
+  (eapply IH; [exact HM|]); unfold sent_inv; cbn [m_open m_sent m_pers];
+  repeat match goal with b : bool |- _ => destruct b end; cbn; auto; try discriminate;
+  try (split; [reflexivity|intros; try discriminate; auto]);
+  try (destruct Hi as [Hi1 Hi2]; rewrite Hi1; auto).
+Qed.
+
+(* the bracket WITH restore (fix_sent): BOpen => ledger open and persisted; BClosed => ledger closed *)
+Definition strict_inv (b : bstate) (m : mst) : Prop :=
+  match b with
+  | BOpen => m_open m = true /\ m_pers m = true
+  | BClosed => m_open m = false
+  | BQuiet => True
+  end.
+
+Lemma mon_strictT fp t : forall m m' b,
+  mon_run true fp m t = Some m' -> (fp = true \/ no_prune (map fst t) = true) -> strict_inv b m ->
+  strictT b t = true.
+Proof.
+  induction t as [|[ev o] r IH]; intros m m' b HM NPo Hi; [reflexivity|].
+  cbn [mon_run] in HM. destruct (mon_step _ _ m ev o) as [m1|] eqn:St; [|discriminate].
+  assert (NPr : fp = true \/ no_prune (map fst r) = true).
+  { destruct NPo as [A|A]; [left; exact A|right]. cbn [map fst no_prune forallb] in A.
+    apply andb_true_iff in A as [_ A]. exact A. }
+  assert (NP1 : fp = true \/ match ev with EPrune true => false | _ => true end = true).
+  { destruct NPo as [A|A]; [left; exact A|right]. cbn [map fst no_prune forallb] in A.
+    apply andb_true_iff in A as [A _]. exact A. }
+  cbn [strictT]. destruct m as [mo mp mq ma ms].
+  destruct ev as [i h|i h|sn|sn ok| | |past]; cbn [mon_step m_open m_pers m_pend m_ack m_sent] in St;
+  break_if St; inversion St; subst; clear St;
+  destruct b; cbn [strict_inv m_open m_pers] in Hi;
+  repeat match goal with x : bool |- _ => destruct x end;
+  cbn [andb negb orb Bool.eqb] in *; try congruence;
+  try (match type of Hi with _ /\ _ => destruct Hi as [Hi1 Hi2] end); try congruence;
+  cbn [strict_calls];
+  try (destruct NP1 as [NP1|NP1]; congruence);
+  try reflexivity;
+  (eapply IH; [exact HM|exact NPr|]); cbn [strict_inv m_open m_pers]; auto.
+Qed.
+
 (* ---------- the plain statements, uniform in fix_sent / fix_order / fix_l2stop (/repo HEAD = V true false true) ---------- *)
-Lemma accepted_run fs t : accepted fs t = true -> exists m', mon_run fs mst0 t = Some m'.
-Proof. unfold accepted. destruct (mon_run fs mst0 t); [eauto|discriminate]. Qed.
+Lemma accepted_run fs fp t : accepted fs fp t = true -> exists m', mon_run fs fp mst0 t = Some m'.
+Proof. unfold accepted. destruct (mon_run fs fp mst0 t); [eauto|discriminate]. Qed.
 
 Section Plain.
-Variables fs fo fl : bool.
-Local Notation vv := (V fs fo fl).
+Variables fs fo fl fp : bool.
+Local Notation vv := (V fs fo fl fp).
 
 Lemma start_once g evs :
   lrun_wraps vv g sst0 evs = false -> no_prune evs = true ->
   bracketed false (outputs (snd (lrun vv g sst0 evs))) = true.
 Proof.
-  intros Hw NP. destruct (accepted_run _ _ (conforms fs fo fl g evs Hw)) as (m' & M).
+  intros Hw NP. destruct (accepted_run _ _ _ (conforms fs fo fl fp g evs Hw)) as (m' & M).
   eapply mon_bracketed; [exact M| rewrite lrun_events; exact NP | discriminate].
 Qed.
 
@@ -423,7 +499,7 @@ Lemma stop_once g evs :
   lrun_wraps vv g sst0 evs = false ->
   stops_ok false (snd (lrun vv g sst0 evs)) = true.
 Proof.
-  intros Hw. destruct (accepted_run _ _ (conforms fs fo fl g evs Hw)) as (m' & M).
+  intros Hw. destruct (accepted_run _ _ _ (conforms fs fo fl fp g evs Hw)) as (m' & M).
   eapply mon_stops; [exact M | exact I | reflexivity].
 Qed.
 
@@ -431,7 +507,7 @@ Lemma monotone g evs :
   lrun_wraps vv g sst0 evs = false -> no_prune evs = true ->
   nondecreasing c4z (outputs (snd (lrun vv g sst0 evs))) = true.
 Proof.
-  intros Hw NP. destruct (accepted_run _ _ (conforms fs fo fl g evs Hw)) as (m' & M).
+  intros Hw NP. destruct (accepted_run _ _ _ (conforms fs fo fl fp g evs Hw)) as (m' & M).
   eapply mon_monotone; [exact M| rewrite lrun_events; exact NP | unfold mono_inv; cbn; reflexivity].
 Qed.
 
@@ -439,17 +515,42 @@ Lemma strict_issued g evs :
   lrun_wraps vv g sst0 evs = false -> no_prune evs = true -> never_restored evs = true ->
   strict false (outputs (snd (lrun vv g sst0 evs))) = true.
 Proof.
-  intros Hw NP NR. destruct (accepted_run _ _ (conforms fs fo fl g evs Hw)) as (m' & M).
+  intros Hw NP NR. destruct (accepted_run _ _ _ (conforms fs fo fl fp g evs Hw)) as (m' & M).
   eapply mon_strict; [exact M| rewrite lrun_events, NP, NR; reflexivity | cbn; split; [reflexivity|discriminate]].
 Qed.
 End Plain.
 
-(* with the high-water mark of sent values: never below the last report SENT *)
-Lemma monotone_sent fo fl g evs :
-  lrun_wraps (V true fo fl) g sst0 evs = false -> no_prune evs = true ->
-  nondecreasing_sent c4z (outputs (snd (lrun (V true fo fl) g sst0 evs))) = true.
+(* the bracket WITH restore, at /repo HEAD (fix_sent); no hypothesis on pruning when orphans are closed with a Stop *)
+Lemma strict_restore fo fl fp g evs :
+  lrun_wraps (V true fo fl fp) g sst0 evs = false -> (fp = true \/ no_prune evs = true) ->
+  strictT BClosed (snd (lrun (V true fo fl fp) g sst0 evs)) = true.
 Proof.
-  intros Hw NP. destruct (accepted_run _ _ (conforms true fo fl g evs Hw)) as (m' & M).
+  intros Hw NP. destruct (accepted_run _ _ _ (conforms true fo fl fp g evs Hw)) as (m' & M).
+  eapply mon_strictT; [exact M| rewrite lrun_events; exact NP | reflexivity].
+Qed.
+
+Lemma start_once_p fs fo fl g evs :
+  lrun_wraps (V fs fo fl true) g sst0 evs = false ->
+  bracketed false (outputs (snd (lrun (V fs fo fl true) g sst0 evs))) = true.
+Proof.
+  intros Hw. destruct (accepted_run _ _ _ (conforms fs fo fl true g evs Hw)) as (m' & M).
+  eapply mon_bracketed_p; [exact M | discriminate].
+Qed.
+
+Lemma monotone_sent_p fo fl g evs :
+  lrun_wraps (V true fo fl true) g sst0 evs = false ->
+  nondecreasing_sent c4z (outputs (snd (lrun (V true fo fl true) g sst0 evs))) = true.
+Proof.
+  intros Hw. destruct (accepted_run _ _ _ (conforms true fo fl true g evs Hw)) as (m' & M).
+  eapply mon_monotone_sent_p; [exact M | unfold sent_inv; cbn; reflexivity].
+Qed.
+
+(* with the high-water mark of sent values: never below the last report SENT *)
+Lemma monotone_sent fo fl fp g evs :
+  lrun_wraps (V true fo fl fp) g sst0 evs = false -> no_prune evs = true ->
+  nondecreasing_sent c4z (outputs (snd (lrun (V true fo fl fp) g sst0 evs))) = true.
+Proof.
+  intros Hw NP. destruct (accepted_run _ _ _ (conforms true fo fl fp g evs Hw)) as (m' & M).
   eapply mon_monotone_sent; [exact M| rewrite lrun_events; exact NP | unfold sent_inv; cbn; reflexivity].
 Qed.
 
@@ -479,7 +580,7 @@ Proof.
     destruct (report v g true e sn). reflexivity.
   - destruct (cache s); reflexivity.
   - reflexivity.
-  - destruct (cache s) as [e|]; [|reflexivity]. destruct (pending e && past); reflexivity.
+  - destruct (cache s) as [e|]; [|reflexivity]. destruct (pending e && past); [destruct (fix_prune v)|]; reflexivity.
 Qed.
 
 Lemma interims_acked_app a b : interims_acked (a ++ b) = interims_acked a && interims_acked b.
@@ -497,9 +598,9 @@ Proof.
   destruct ev as [| | |sn ok| | |]; auto. destruct ok; [auto|discriminate].
 Qed.
 
-Lemma monotone_sent_if_acked fs fo fl g evs :
-  lrun_wraps (V fs fo fl) g sst0 evs = false -> no_prune evs = true -> all_acked evs = true ->
-  nondecreasing_sent c4z (outputs (snd (lrun (V fs fo fl) g sst0 evs))) = true.
+Lemma monotone_sent_if_acked fs fo fl fp g evs :
+  lrun_wraps (V fs fo fl fp) g sst0 evs = false -> no_prune evs = true -> all_acked evs = true ->
+  nondecreasing_sent c4z (outputs (snd (lrun (V fs fo fl fp) g sst0 evs))) = true.
 Proof.
   intros Hw NP AA. rewrite sent_eq_acked by (apply lrun_interims_acked; exact AA).
   apply monotone; assumption.
@@ -587,30 +688,30 @@ Proof.
 Qed.
 
 (* with ordered delivery the stream ARRIVING at the provider is a prefix of the stream issued *)
-Lemma arrived_prefix fs fl g xs :
-  let '(d', iss, arr) := drun (V fs true fl) g dst0 xs in arr ++ d_held d' = iss.
+Lemma arrived_prefix fs fl fp g xs :
+  let '(d', iss, arr) := drun (V fs true fl fp) g dst0 xs in arr ++ d_held d' = iss.
 Proof.
-  pose proof (drun_ordered (V fs true fl) g eq_refl xs dst0 [] [] eq_refl) as H.
-  destruct (drun (V fs true fl) g dst0 xs) as [[d' iss] arr]. cbn [app] in H. exact H.
+  pose proof (drun_ordered (V fs true fl fp) g eq_refl xs dst0 [] [] eq_refl) as H.
+  destruct (drun (V fs true fl fp) g dst0 xs) as [[d' iss] arr]. cbn [app] in H. exact H.
 Qed.
 
-Lemma delivered_strict fs fl g xs :
-  lrun_wraps (V fs true fl) g sst0 (dev_events xs) = false -> no_prune (dev_events xs) = true ->
+Lemma delivered_strict fs fl fp g xs :
+  lrun_wraps (V fs true fl fp) g sst0 (dev_events xs) = false -> no_prune (dev_events xs) = true ->
   never_restored (dev_events xs) = true ->
-  strict false (snd (drun (V fs true fl) g dst0 xs)) = true.
+  strict false (snd (drun (V fs true fl fp) g dst0 xs)) = true.
 Proof.
-  intros Hw NP NR. pose proof (arrived_prefix fs fl g xs) as P. pose proof (drun_issued (V fs true fl) g xs dst0) as Q.
-  destruct (drun (V fs true fl) g dst0 xs) as [[d' iss] arr]. cbn [fst snd d_comp dst0] in *.
+  intros Hw NP NR. pose proof (arrived_prefix fs fl fp g xs) as P. pose proof (drun_issued (V fs true fl fp) g xs dst0) as Q.
+  destruct (drun (V fs true fl fp) g dst0 xs) as [[d' iss] arr]. cbn [fst snd d_comp dst0] in *.
   apply (strict_prefix arr false (d_held d')). rewrite P, Q.
   apply strict_issued; assumption.
 Qed.
 
-Lemma delivered_monotone_sent fl g xs :
-  lrun_wraps (V true true fl) g sst0 (dev_events xs) = false -> no_prune (dev_events xs) = true ->
-  nondecreasing_sent c4z (snd (drun (V true true fl) g dst0 xs)) = true.
+Lemma delivered_monotone_sent fl fp g xs :
+  lrun_wraps (V true true fl fp) g sst0 (dev_events xs) = false -> no_prune (dev_events xs) = true ->
+  nondecreasing_sent c4z (snd (drun (V true true fl fp) g dst0 xs)) = true.
 Proof.
-  intros Hw NP. pose proof (arrived_prefix true fl g xs) as P. pose proof (drun_issued (V true true fl) g xs dst0) as Q.
-  destruct (drun (V true true fl) g dst0 xs) as [[d' iss] arr]. cbn [fst snd d_comp dst0] in *.
+  intros Hw NP. pose proof (arrived_prefix true fl fp g xs) as P. pose proof (drun_issued (V true true fl fp) g xs dst0) as Q.
+  destruct (drun (V true true fl fp) g dst0 xs) as [[d' iss] arr]. cbn [fst snd d_comp dst0] in *.
   apply (sent_prefix arr c4z (d_held d')). rewrite P, Q.
   apply monotone_sent; assumption.
 Qed.
@@ -644,10 +745,10 @@ Proof.
     destruct (drun v g (Dst (d_comp d) (d_hs d) []) r) as [[d2 i2] a2]. cbn [fst snd app] in *. exact IH.
 Qed.
 (* ---------- repeated notifications are silent (any reachable or unreachable state) ---------- *)
-Lemma after_announce_silent fs fo fl g s ev i h j k :
+Lemma after_announce_silent fs fo fl fp g s ev i h j k :
   (ev = EActive i h \/ ev = ERestored i h) ->
-  let s' := fst (lstep (V fs fo fl) g s ev) in
-  snd (lstep (V fs fo fl) g s' (EActive j k)) = [] /\ snd (lstep (V fs fo fl) g s' (ERestored j k)) = [].
+  let s' := fst (lstep (V fs fo fl fp) g s ev) in
+  snd (lstep (V fs fo fl fp) g s' (EActive j k)) = [] /\ snd (lstep (V fs fo fl fp) g s' (ERestored j k)) = [].
 Proof.
   intros [E|E]; subst ev; cbn [lstep].
   - destruct (inb s) eqn:IB.
@@ -656,9 +757,9 @@ Proof.
   - destruct (cache s); cbn; auto.
 Qed.
 
-Lemma after_release_silent fs fo fl g s sn sn' :
-  let s' := fst (lstep (V fs fo fl) g s (EReleased sn)) in
-  s' = sst0 /\ snd (lstep (V fs fo fl) g s' (EReleased sn')) = [].
+Lemma after_release_silent fs fo fl fp g s sn sn' :
+  let s' := fst (lstep (V fs fo fl fp) g s (EReleased sn)) in
+  s' = sst0 /\ snd (lstep (V fs fo fl fp) g s' (EReleased sn')) = [].
 Proof. cbn [lstep]. destruct (cache s); cbn; auto. Qed.
 
 Lemma restore_never_starts v g s i h : snd (lstep v g s (ERestored i h)) = [].
@@ -761,20 +862,20 @@ Lemma c4_any2_false_intro f a b :
   f (rxp a) (rxp b) = false -> f (txp a) (txp b) = false -> c4_any2 f a b = false.
 Proof. intros H1 H2 H3 H4. unfold c4_any2. rewrite H1, H2, H3, H4. reflexivity. Qed.
 
-Lemma apply_bound fo fl B T e st :
+Lemma apply_bound fo fl fp B T e st :
   sinv B e -> c4_lt_W st -> c4_le st T -> c4_lt_W (c4_add B T) ->
-  apply_wraps (V false fo fl) e st = false /\
-  sinv (c4_add B T) (fst (apply (V false fo fl) e st)) /\
-  c4_le (prior (fst (apply (V false fo fl) e st))) (snd (apply (V false fo fl) e st)) /\
-  c4_le (snd (apply (V false fo fl) e st)) (c4_add B T).
+  apply_wraps (V false fo fl fp) e st = false /\
+  sinv (c4_add B T) (fst (apply (V false fo fl fp) e st)) /\
+  c4_le (prior (fst (apply (V false fo fl fp) e st))) (snd (apply (V false fo fl fp) e st)) /\
+  c4_le (snd (apply (V false fo fl fp) e st)) (c4_add B T).
 Proof.
   intros (Hb & Hp & Hl) Lst LT LW.
   unfold apply, apply_wraps. cbn [fst snd].
-  assert (E : base (rebase (V false fo fl) e st) = c4z /\
-              c4_le (prior (rebase (V false fo fl) e st)) (last e) /\ last (rebase (V false fo fl) e st) = last e).
-  { unfold rebase. destruct (regressed (V false fo fl) e st); cbn [base prior last floor fix_sent V]; (split; [|split]); auto; try c4crush. }
+  assert (E : base (rebase (V false fo fl fp) e st) = c4z /\
+              c4_le (prior (rebase (V false fo fl fp) e st)) (last e) /\ last (rebase (V false fo fl fp) e st) = last e).
+  { unfold rebase. destruct (regressed (V false fo fl fp) e st); cbn [base prior last floor fix_sent V]; (split; [|split]); auto; try c4crush. }
   destruct E as (E1 & E2 & E3).
-  set (e' := rebase (V false fo fl) e st) in *.
+  set (e' := rebase (V false fo fl fp) e st) in *.
   assert (C : cum e' st = c4_add st (prior e')).
   { unfold cum. rewrite E1. destruct st as [a b c d], (prior e') as [pa pb pc pd] eqn:PE.
     destruct (last e) as [la lb lc ld], B as [ba bb bc bd], T as [ta tb tc td].
@@ -794,12 +895,12 @@ Proof.
   - rewrite C. c4crush.
 Qed.
 
-Lemma report_bound fo fl B T tick e sn :
+Lemma report_bound fo fl fp B T tick e sn :
   sinv B e -> c4_le (snap_sum (ifs sn)) T -> c4_lt_W (c4_add B T) ->
-  report_wraps (V false fo fl) false tick e sn = false /\
-  sinv (c4_add B T) (fst (report (V false fo fl) false tick e sn)) /\
-  c4_le (prior (fst (report (V false fo fl) false tick e sn))) (snd (report (V false fo fl) false tick e sn)) /\
-  c4_le (snd (report (V false fo fl) false tick e sn)) (c4_add B T).
+  report_wraps (V false fo fl fp) false tick e sn = false /\
+  sinv (c4_add B T) (fst (report (V false fo fl fp) false tick e sn)) /\
+  c4_le (prior (fst (report (V false fo fl fp) false tick e sn))) (snd (report (V false fo fl fp) false tick e sn)) /\
+  c4_le (snd (report (V false fo fl fp) false tick e sn)) (c4_add B T).
 Proof.
   intros I LT LW. unfold report, report_wraps, reading. cbn [andb].
   destruct (lookup_stats (ifs sn) (ifx e)) as [st|] eqn:L.
@@ -817,9 +918,9 @@ Definition ginv (B : c4) (s : sst) : Prop :=
 
 Lemma c4_le_refl a : c4_le a a. Proof. c4crush. Qed.
 
-Lemma step_bound fo fl B s ev :
+Lemma step_bound fo fl fp B s ev :
   ginv B s -> c4_lt_W (c4_add B (ev_sum ev)) ->
-  lstep_wraps (V false fo fl) false s ev = false /\ ginv (c4_add B (ev_sum ev)) (fst (lstep (V false fo fl) false s ev)).
+  lstep_wraps (V false fo fl fp) false s ev = false /\ ginv (c4_add B (ev_sum ev)) (fst (lstep (V false fo fl fp) false s ev)).
 Proof.
   intros [Ic Id] LW.
   assert (MB : c4_le B (c4_add B (ev_sum ev))) by c4crush.
@@ -839,14 +940,14 @@ Proof.
     destruct ca as [e|]; cbn [fst]; split; cbn [cache db]; intros x Hx; try (inversion Hx; subst); auto.
     specialize (Ic' e eq_refl). unfold sinv, confirm in *; cbn. exact Ic'.
   - destruct ca as [e|].
-    + destruct (report_bound fo fl B (snap_sum (ifs sn)) false e sn (Ic e eq_refl) (c4_le_refl _) LW) as (R1 & _).
+    + destruct (report_bound fo fl fp B (snap_sum (ifs sn)) false e sn (Ic e eq_refl) (c4_le_refl _) LW) as (R1 & _).
       split; [exact R1|]. cbn. split; intros x Hx; discriminate.
     + split; [reflexivity|]. cbn. split; intros x Hx; discriminate.
   - destruct ca as [e|].
-    + destruct (report_bound fo fl B (snap_sum (ifs sn)) true e sn (Ic e eq_refl) (c4_le_refl _) LW) as (R1 & R2 & R3 & R4).
+    + destruct (report_bound fo fl fp B (snap_sum (ifs sn)) true e sn (Ic e eq_refl) (c4_le_refl _) LW) as (R1 & R2 & R3 & R4).
       destruct ib; cbn [andb].
       * split; [exact R1|].
-        destruct (report (V false fo fl) false true e sn) as [e' c] eqn:RP. cbn [fst snd] in *.
+        destruct (report (V false fo fl fp) false true e sn) as [e' c] eqn:RP. cbn [fst snd] in *.
         destruct ok; cbn [fst]; split; cbn [cache db]; intros x Hx; try (inversion Hx; subst); auto;
           destruct R2 as (Q1 & Q2 & Q3); unfold sinv; cbn [base prior last]; (split; [|split]); auto.
       * split; [reflexivity|]. cbn. split; auto.
@@ -862,26 +963,26 @@ Proof.
     destruct (pending e && past); cbn; split; auto; intros x Hx; discriminate.
 Qed.
 
-Lemma run_bound fo fl evs : forall s B,
-  ginv B s -> c4_lt_W (c4_add B (total_readings evs)) -> lrun_wraps (V false fo fl) false s evs = false.
+Lemma run_bound fo fl fp evs : forall s B,
+  ginv B s -> c4_lt_W (c4_add B (total_readings evs)) -> lrun_wraps (V false fo fl fp) false s evs = false.
 Proof.
   induction evs as [|ev r IH]; intros s B I LW; cbn [lrun_wraps total_readings] in *; [reflexivity|].
   assert (LW1 : c4_lt_W (c4_add B (ev_sum ev))) by c4crush.
-  destruct (step_bound fo fl B s ev I LW1) as [S1 S2].
+  destruct (step_bound fo fl fp B s ev I LW1) as [S1 S2].
   rewrite S1. cbn [orb]. eapply IH; [exact S2|]. c4crush.
 Qed.
 
-Lemma no_wrap_if_total_small fo fl evs :
-  c4_lt_W (total_readings evs) -> lrun_wraps (V false fo fl) false sst0 evs = false.
+Lemma no_wrap_if_total_small fo fl fp evs :
+  c4_lt_W (total_readings evs) -> lrun_wraps (V false fo fl fp) false sst0 evs = false.
 Proof.
-  intros H. apply (run_bound fo fl evs sst0 c4z).
+  intros H. apply (run_bound fo fl fp evs sst0 c4z).
   - split; intros x Hx; discriminate.
   - c4crush.
 Qed.
 
-Lemma monotone_total fo fl evs :
+Lemma monotone_total fo fl fp evs :
   c4_lt_W (total_readings evs) -> no_prune evs = true ->
-  nondecreasing c4z (outputs (snd (lrun (V false fo fl) false sst0 evs))) = true.
+  nondecreasing c4z (outputs (snd (lrun (V false fo fl fp) false sst0 evs))) = true.
 Proof. intros H NP. apply monotone; [apply no_wrap_if_total_small; exact H|exact NP]. Qed.
 
 (* ---------- the RADIUS wire encoding of the counters ---------- *)
@@ -922,8 +1023,8 @@ Proof.
   rewrite andb_true_iff. intros [H1 H2]. rewrite through_wire_id by exact H1. rewrite IH by exact H2. reflexivity.
 Qed.
 
-Lemma monotone_on_wire fs fo fl g evs :
-  lrun_wraps (V fs fo fl) g sst0 evs = false -> no_prune evs = true ->
-  forallb (fun o => wire_range (counters_of o)) (outputs (snd (lrun (V fs fo fl) g sst0 evs))) = true ->
-  nondecreasing c4z (map through_wire (outputs (snd (lrun (V fs fo fl) g sst0 evs)))) = true.
+Lemma monotone_on_wire fs fo fl fp g evs :
+  lrun_wraps (V fs fo fl fp) g sst0 evs = false -> no_prune evs = true ->
+  forallb (fun o => wire_range (counters_of o)) (outputs (snd (lrun (V fs fo fl fp) g sst0 evs))) = true ->
+  nondecreasing c4z (map through_wire (outputs (snd (lrun (V fs fo fl fp) g sst0 evs)))) = true.
 Proof. intros Hw NP R. rewrite map_through_wire by exact R. apply monotone; assumption. Qed.
